@@ -82,6 +82,84 @@ def has_char_draw(rx):
     return False
 
 
+A_ = 97
+_CLS = lambda neg, items: {"r": "class", "neg": neg, "items": items}      # noqa: E731
+_CL = lambda c: {"ci": "lit", "c": c}                                    # noqa: E731
+_CR = lambda lo, hi: {"ci": "range", "lo": lo, "hi": hi}                 # noqa: E731
+_CC = lambda cat: {"ci": "cat", "cat": cat}                              # noqa: E731
+ATOMS = [{"r": "lit", "c": A_}, {"r": "lit", "c": 46}, {"r": "lit", "c": 98}, {"r": "any"},
+         _CLS(False, [_CC("digit")]), _CLS(False, [_CC("word")]),
+         _CLS(False, [_CL(A_), _CR(98, 99), _CC("word")]), _CLS(True, [_CR(A_, 99), _CC("digit")]),
+         {"r": "notlit", "c": A_}, _CLS(False, [_CR(A_, 99)]), _CLS(True, [_CL(A_)]),
+         _CLS(True, [_CR(32, 126)]), _CLS(False, [_CC("space")]), _CLS(False, [_CC("ndigit")]),
+         _CLS(True, [_CC("word"), _CL(45)]), _CLS(False, [_CC("nword")]), _CLS(True, [_CC("nspace")])]
+INF = -1
+BOUNDS = [(0, 1), (0, INF), (1, INF), (1, 3), (33, INF), (2, 2), (0, 0), (0, 44), (40, 44), (2, INF)]
+UNS = ["lookahead", "nlookahead", "lookbehind", "nlookbehind", "backref", "atomic", "possessive"]
+
+
+def _flat(x):
+    return x["parts"] if x["r"] == "seq" else [x]
+
+
+def rand_rx(rng, steps):
+    """the constructor program of spec/MC_Regex.tla run with random choices"""
+    stack = []
+    for _ in range(steps):
+        moves = []
+        if len(stack) < 2:
+            moves += ["push"] * 3
+        if stack:
+            moves += ["group", "rep", "rep", "uns"]
+        if len(stack) >= 2:
+            moves += ["seq", "seq", "alt"]
+        mv = rng.choice(moves)
+        if mv == "push":
+            stack.append(rng.choice(ATOMS))
+        elif mv == "group":
+            stack[-1] = {"r": "group", "kind": rng.choice(["cap", "noncap", "named"]), "body": stack[-1]}
+        elif mv == "rep":
+            lo, hi = rng.choice(BOUNDS)
+            stack[-1] = {"r": "rep", "body": stack[-1], "lo": lo, "hi": hi, "lazy": rng.random() < 0.3}
+        elif mv == "uns":
+            if rng.random() < 0.25:
+                stack[-1] = {"r": "uns", "kind": rng.choice(UNS), "body": stack[-1]}
+        elif mv == "seq":
+            b = stack.pop()
+            a = stack.pop()
+            stack.append({"r": "seq", "parts": _flat(a) + _flat(b)})
+        else:
+            b = stack.pop()
+            a = stack.pop()
+            stack.append({"r": "alt", "alts": [a, b]})
+    if not stack:
+        return None
+    while len(stack) > 1:
+        b = stack.pop()
+        a = stack.pop()
+        stack.append({"r": "seq", "parts": _flat(a) + _flat(b)})
+    rx = stack[0]
+    if rng.random() < 0.15:
+        rx = {"r": "seq", "parts": [{"r": "at", "at": "start"}] + _flat(rx) + [{"r": "at", "at": "end"}]}
+    return rx
+
+
+def worst_len(x, m):
+    k = x["r"]
+    if k in ("lit", "notlit", "any", "class"):
+        return 1
+    if k == "at":
+        return 0
+    if k in ("group", "uns"):
+        return worst_len(x["body"], m)
+    if k == "rep":
+        n = max(m, x["lo"]) if x["hi"] in (INF, 44) else x["hi"]
+        return n * worst_len(x["body"], m)
+    if k == "seq":
+        return sum(worst_len(p, m) for p in x["parts"])
+    return max(worst_len(a, m) for a in x["alts"])
+
+
 def describe(e):
     return {"pattern": e.get("pattern"), "max_repeat": e["mr"], "tape": e["tape"], "exc": e["exc"],
             "generated": am.g_text(e["w"]), "re_fullmatch": e["py_full"], "via_fake": e["via_fake"],
@@ -94,9 +172,9 @@ def main(chk):
     # (MaxSteps, Rich, MaxRepeats, MaxLen, share of the observed runs replayed on the real generator):
     # TLC checks the invariants in *every* state; the thorough tier replays a seeded sample of the
     # larger machines (the full quick machine is always replayed whole)
+    # share 0: the machine is model-checked only (no state dump)
     configs = [(3, "FALSE", "{2, 32}", 40, 1.0)] if quick else \
-              [(3, "FALSE", "{2, 32}", 40, 1.0), (3, "TRUE", "{0, 1, 2, 32, 100}", 50, 0.25),
-               (4, "FALSE", "{2, 32}", 40, 0.05)]
+              [(3, "FALSE", "{0, 1, 2, 32, 100}", 40, 1.0), (3, "TRUE", "{1, 100}", 50, 0)]
     import random as _random
     rng = _random.Random(chk.seed)
     events = []
@@ -105,9 +183,11 @@ def main(chk):
         cfg = {"constants": {"MaxSteps": str(steps), "Rich": rich, "MaxRepeats": mrs, "MaxLen": str(maxlen)},
                "invariants": ["C09_FullMatchOrRefusal", "C09_SupportedNeverRefused", "C09_SearchAccepts"],
                "view": "View"}
-        r = chk.model_check("MC_Regex", cfg, name="C09_MC_Regex_%d_%s" % (steps, rich), dump=True, timeout=3000)
+        r = chk.model_check("MC_Regex", cfg, name="C09_MC_Regex_%d_%s" % (steps, rich), dump=share > 0, timeout=5000)
         if res is None:
             res = r
+        if share <= 0:
+            continue
         for st in core.load_dump(r, only='"obs"'):
             if st["phase"] != "obs":
                 continue
@@ -153,6 +233,26 @@ def main(chk):
                 ev["id"] = len(events) + 1
                 events.append(ev)
                 chk.count("index_sweep_runs")
+    # code -> spec beyond the machine's depth: random ASTs from the same constructors (rich
+    # alphabet, up to 6 steps), every boundary tape; the verdicts are Trace_C09's as for the rest
+    nrand = 1500 if quick else 12000
+    made = 0
+    tries = 0
+    while made < nrand and tries < nrand * 10:
+        tries += 1
+        rx = rand_rx(rng, rng.randrange(2, 7))
+        mr = rng.choice([0, 1, 2, 3, 32, 100])
+        if rx is None or worst_len(rx, mr) > 60:
+            continue
+        tape = [rng.choice(["lo", "lo1", "hi1", "hi"]) for _ in range(rng.randrange(1, 4))]
+        for via_fake in ([False, True] if mr == 32 else [False]):
+            ev = run_one(rx, tape, mr, via_fake)
+            if ev is None:
+                continue
+            ev["id"] = len(events) + 1
+            events.append(ev)
+            chk.count("random_deep_runs")
+            made += 1
     chk.require(chk.counts.get("index_sweep_runs", 0) >= 2000, "index sweep too small")
     chk.require(len(events) >= 10000, "fewer than 10000 generator runs (%d)" % len(events))
     chk.require(chk.counts.get("generated", 0) >= 5000 and chk.counts.get("refused", 0) >= 500,
